@@ -345,6 +345,33 @@ for shot_noise in (False, True):
 """, "expect": "every draw of the model happens inside `with set_random_seed(seed)`"}}
 
 
+FRAME_REPLAYS["cosmix"] = lambda w: {"code": """
+import numpy as np, os, pickle, tempfile, warnings
+from pyxel.detectors import CCD, CCDGeometry, Characteristics, Environment
+from pyxel.models.charge_generation import cosmix
+warnings.simplefilter('ignore')
+tmp = tempfile.mkdtemp(); os.chdir(tmp)                      # the model writes its step-size tables under ./data
+with open(os.path.join(tmp, 'spectrum.txt'), 'w') as fh:
+    fh.write('# energy flux\\n' + ''.join(f'{e} 1.0\\n' for e in (50.0, 100.0, 150.0, 200.0)))
+def run(prior, step):
+    np.random.seed(prior); np.random.normal(size=3)
+    det = CCD(geometry=CCDGeometry(row=8, col=8, pixel_horz_size=10.0, pixel_vert_size=10.0, total_thickness=40.0), environment=Environment(), characteristics=Characteristics())
+    det.set_readout(times=[1.0, 5.0, 7.0], non_destructive=False)
+    det.time_step = step
+    before = pickle.dumps(np.random.get_state())
+    cosmix(detector=det, simulation_mode='cosmic_ray', running_mode='stepsize', particle_type='proton', initial_energy=100.0, particles_per_second=100.0,
+           spectrum_file=os.path.join(tmp, 'spectrum.txt'), seed=1234, progressbar=False)
+    return det.charge.frame.to_numpy(dtype=float), pickle.dumps(np.random.get_state()) == before
+VIOLATED, DETAIL = False, 'cosmix(seed=...) draws only inside its seed context: same seed, same clusters; the process-wide generator is left as it was'
+for step in (0.02, 0.025, 0.0333):                            # 2, 2.5 and 3.33 particles expected in the step
+    outs = [run(1000 + k, step) for k in range(6)]
+    if not all(r for _, r in outs):
+        VIOLATED, DETAIL = True, f'time step {step} ({100 * step} particles expected): the process-wide generator is not restored after the seeded model'; break
+    if any(o.shape != outs[0][0].shape or not np.array_equal(o, outs[0][0]) for o, _ in outs[1:]):
+        VIOLATED, DETAIL = True, f'time step {step} ({100 * step} particles expected): cosmix(seed=1234) gives {sorted({len(o) for o, _ in outs})} clusters depending on the generator state before the call'; break
+""", "expect": "every draw of cosmix happens inside `with set_random_seed(seed)`, whatever the expected particle count"}
+
+
 MEMO_REPLAYS = {"fixed_pattern_noise": lambda w: {"code": """
 import numpy as np, verif_probes as VP
 from pyxel.models.charge_collection import fixed_pattern_noise
